@@ -65,10 +65,9 @@ func (t *Table) Scan(cb TableScanCB) error {
 	if err != nil {
 		return err
 	}
-	defer t.db.startWalk()()
 	_, err = root.Iter(
 		maxRecursion,
-		t.db,
+		t.db.traversal(),
 		func(rowid int64, pl cellPayload) (bool, error) {
 			c, err := addOverflow(t.db, pl)
 			if err != nil {
@@ -94,12 +93,11 @@ func (t *Table) Rowid(rowid int64) (Record, error) {
 	if err != nil {
 		return nil, err
 	}
-	defer t.db.startWalk()()
 
 	var recPl *cellPayload
 	if _, err := root.IterMin(
 		maxRecursion,
-		t.db,
+		t.db.traversal(),
 		rowid,
 		func(k int64, pl cellPayload) (bool, error) {
 			if k == rowid {
@@ -145,11 +143,10 @@ func (in *Index) Scan(cb RecordCB) error {
 	if err != nil {
 		return err
 	}
-	defer in.db.startWalk()()
 
 	_, err = root.Iter(
 		maxRecursion,
-		in.db,
+		in.db.traversal(),
 		func(rec Record) (bool, error) {
 			return cb(rec), nil
 		},
@@ -163,11 +160,10 @@ func (in *Index) ScanEq(key Key, cb RecordCB) error {
 	if err != nil {
 		return err
 	}
-	defer in.db.startWalk()()
 
 	_, err = root.IterMin(
 		maxRecursion,
-		in.db,
+		in.db.traversal(),
 		key,
 		func(rec Record) (bool, error) {
 			if !Equals(key, rec) {
@@ -189,11 +185,10 @@ func (in *Index) ScanMin(from Key, cb RecordCB) error {
 	if err != nil {
 		return err
 	}
-	defer in.db.startWalk()()
 
 	_, err = root.IterMin(
 		maxRecursion,
-		in.db,
+		in.db.traversal(),
 		from,
 		func(rec Record) (bool, error) {
 			return cb(rec), nil
@@ -211,11 +206,10 @@ func (in *Index) ScanRange(from, to Key, cb RecordCB) error {
 	if err != nil {
 		return err
 	}
-	defer in.db.startWalk()()
 
 	_, err = root.IterMin(
 		maxRecursion,
-		in.db,
+		in.db.traversal(),
 		from,
 		func(rec Record) (bool, error) {
 			if Search(to, rec) {
